@@ -4,8 +4,9 @@ from pathlib import Path
 sys.path.insert(0, str(Path(__file__).resolve().parent))
 import vlib, http_common
 
-MODULES = ["KrillModel.Props.C13"]
-TABLES = [("permissions", "Perm.lean"), ("routes", "Routes.lean")]
+# C13Src: the body of Role::is_allowed regenerated from the source (pure_fns) = the model function the theorems are about
+MODULES = ["KrillModel.Props.C13", "KrillModel.Props.C13Src"]
+TABLES = [("permissions", "Perm.lean"), ("routes", "Routes.lean"), ("pure_fns:C13", "PureFns.lean")]
 
 RULE = ("stream http: the real daemon (start_krill_daemon, in process) on a Unix socket and a private loopback TCP port, "
         "config-file auth provider; one case per role (random subsets of the 22 permissions as simple / config-file "
@@ -73,5 +74,5 @@ MANIFEST = {
             "status). The specification Spec.required (which permission an operation needs) is hand-written from the property text "
             "and permission names; it is the trusted statement of intent. Effects of refused requests are observed through the CA "
             "list, per-CA command counts and the publisher list only. OpenID Connect is out of scope (offline).",
-    "technique": "Lean 4 proof over a source-generated table (decide +kernel) + generic theorems + correspondence check against the real daemon",
+    "technique": "Lean 4 proof over a source-generated table (decide +kernel) + generic theorems + source translator (body of Role::is_allowed = the model function: gen_is_allowed_eq_model) + correspondence check against the real daemon",
 }
